@@ -19,6 +19,7 @@ EXPLANATION = (
     "(D3) LF metadata: imSampRate = fs_lf = 2500 with fs_lf * ratio == fs_ap, channel counts derive from the written column "
     "list. The filter response and 1-LSB agreement are NOT decided."
     " (D5) window-state coherence as in C03-D7. (D4 as built) two views of one buffer that are provably disjoint leading-axis ranges (B[:a] and B[b:] with a <= b under init_params' definitions) do not alias."
+    ' (DS as built) an attribute bound to a memoised result in any method of the class is shared wherever it is read: in-place writes through its views are reported.'
 )
 ASSUMPTIONS = [
     "scipy.signal.sosfiltfilt is zero-phase; x[:, ::r] picks samples 0, r, 2r ... (model table)",
